@@ -10,7 +10,8 @@ use std::panic::{catch_unwind, AssertUnwindSafe};
 #[derive(Clone, Debug)]
 enum CE {
     Ext(usize),      // external value PARTY_i::V
-    Lit(u64),        // unsigned literal
+    Lit(u64),        // literal with the suffix of the constant's type (non-negative)
+    Ref(Box<CE>),    // the constant K0 defined before K by this expression (same type)
     Max(Vec<CE>),
     Min(Vec<CE>),
     Add(Box<CE>, Box<CE>),
@@ -40,6 +41,7 @@ fn show(e: &CE, t: Ty) -> String {
     match e {
         CE::Ext(i) => format!("PARTY_{i}::V"),
         CE::Lit(n) => format!("{n}{}", t.name),
+        CE::Ref(_) => "K0".to_string(),
         CE::Max(a) => format!("max({})", a.iter().map(|x| show(x, t)).collect::<Vec<_>>().join(", ")),
         CE::Min(a) => format!("min({})", a.iter().map(|x| show(x, t)).collect::<Vec<_>>().join(", ")),
         CE::Add(a, b) => format!("{} + {}", show(a, t), show(b, t)),
@@ -67,6 +69,7 @@ fn eval(e: &CE, vals: &[i128], lo: i128, hi: i128, wrap64: bool) -> Option<i128>
     match e {
         CE::Ext(i) => Some(vals[*i]),
         CE::Lit(n) => Some(*n as i128),
+        CE::Ref(d) => eval(d, vals, lo, hi, wrap64),
         CE::Max(a) => a.iter().map(|x| eval(x, vals, lo, hi, wrap64)).collect::<Option<Vec<_>>>().map(|v| v.into_iter().max().unwrap()),
         CE::Min(a) => a.iter().map(|x| eval(x, vals, lo, hi, wrap64)).collect::<Option<Vec<_>>>().map(|v| v.into_iter().min().unwrap()),
         CE::Add(a, b) => fit(eval(a, vals, lo, hi, wrap64)? + eval(b, vals, lo, hi, wrap64)?),
@@ -76,8 +79,8 @@ fn eval(e: &CE, vals: &[i128], lo: i128, hi: i128, wrap64: bool) -> Option<i128>
 
 fn rand_expr(rng: &mut Rng, depth: usize, t: Ty) -> CE {
     if depth == 0 || rng.below(3) == 0 {
-        // signed constant expressions cannot contain literals (the language has no signed const literals here)
-        if !t.signed && rng.below(4) == 0 { CE::Lit(rng.below(7) as u64) } else { CE::Ext(rng.below(3)) }
+        // (signed constant expressions used to panic on a literal with a signed suffix: defect fixed in /repo, see known_findings.json)
+        if rng.below(4) == 0 { CE::Lit(rng.below(7) as u64) } else { CE::Ext(rng.below(3)) }
     } else {
         match rng.below(4) {
             0 => CE::Max((0..1 + rng.below(3)).map(|_| rand_expr(rng, depth - 1, t)).collect()),
@@ -130,7 +133,16 @@ fn decode(t: Ty, bits: &[bool]) -> i128 {
 fn run_case(t: Ty, e: &CE, vals: &[i128]) -> Result<bool, String> {
     let (lo, hi) = if t.signed { (-(1i128 << (t.bits - 1)), (1i128 << (t.bits - 1)) - 1) } else { (0, (1i128 << t.bits) - 1) };
     let Some(expected) = eval(e, vals, lo, hi, t.bits == 64) else { return Ok(false) };
-    let src = format!("const K: {0} = {1};\npub fn main(x: {0}) -> {0} {{ x ^ K }}", t.name, show(e, t));
+    fn k0(e: &CE) -> Option<&CE> {
+        match e {
+            CE::Ref(d) => Some(d),
+            CE::Max(a) | CE::Min(a) => a.iter().find_map(k0),
+            CE::Add(a, b) | CE::Sub(a, b) => k0(a).or_else(|| k0(b)),
+            _ => None,
+        }
+    }
+    let def0 = k0(e).map(|d| format!("const K0: {} = {};\n", t.name, show(d, t))).unwrap_or_default();
+    let src = format!("{def0}const K: {0} = {1};\npub fn main(x: {0}) -> {0} {{ x ^ K }}", t.name, show(e, t));
     let r = catch_unwind(AssertUnwindSafe(|| garble_lang::compile_with_constants(&src, consts(t, vals))));
     let prg = match r {
         Err(_) => return Err(format!("compile_with_constants panics for\n{src}\nwith PARTY_i::V = {vals:?}")),
@@ -316,7 +328,21 @@ pub fn search(args: &[String]) -> i32 {
     let mut compared = 0u64;
     for k in 0..random {
         let t = TYPES[(k as usize) % TYPES.len()];
-        let e = rand_expr(&mut rng, 3, t);
+        let mut e = rand_expr(&mut rng, 3, t);
+        if rng.below(2) == 0 {
+            // some external values are replaced by a constant K0 that is defined before K (by a literal, an external value or an expression)
+            let dd = rng.below(3);
+            let d = rand_expr(&mut rng, dd, t);
+            fn with_ref(e: &mut CE, d: &CE, rng: &mut Rng) {
+                match e {
+                    CE::Ext(_) => if rng.below(2) == 0 { *e = CE::Ref(Box::new(d.clone())); },
+                    CE::Max(a) | CE::Min(a) => a.iter_mut().for_each(|x| with_ref(x, d, rng)),
+                    CE::Add(a, b) | CE::Sub(a, b) => { with_ref(a, d, rng); with_ref(b, d, rng); }
+                    _ => {}
+                }
+            }
+            with_ref(&mut e, &d, &mut rng);
+        }
         let (lo, hi) = if t.signed { (-(1i128 << (t.bits - 1)), (1i128 << (t.bits - 1)) - 1) } else { (0i128, (1i128 << t.bits) - 1) };
         let vals: Vec<i128> = (0..3)
             .map(|_| match rng.below(6) {
